@@ -353,6 +353,9 @@ def selftest(ctx):
 
 
 def run(ctx):
+    from spverif.ref import enums as _enums
+    if ctx.shard[0] == 0:
+        _enums.check(ctx, "code_tables", ['spacepackets.ecss.defs', 'spacepackets.ecss.pus_17_test', 'spacepackets.ccsds.spacepacket'])
     from spverif.san import scribble
     scribble.install()
     r = ctx.rng
